@@ -8,6 +8,7 @@
   (wall-clock seconds), durations are whole seconds.
 -/
 import ICal.Lemmas.StartEnd
+import ICal.Lemmas.BodiesSE
 namespace ICal.C16
 open ICal.SE
 
@@ -417,5 +418,22 @@ example : getEnd .event ⟨.one (.date 1), .absent, .absent, .one (.dur 3600)⟩
 example : getEnd .event ⟨.one (.date 1), .absent, .absent, .one (.date 3)⟩ = .error .invalidCalendar := rfl
 example : getStart .event ⟨.absent, .one (.date 2), .absent, .absent⟩ = .error .incompleteComponent := rfl
 example : step .todo St.init (.set (.prop .due) (.val (.dur 5))) = .error .typeError := rfl
+
+/-! ## Regenerated function bodies = hand model
+
+  `ICal.Gen.BodiesSE.Event_end` / `Todo_end` / `is_date` are written by tools/py2lean.py from the current source of
+  `Event.end`, `Todo.end` (cal.py) and `tools.is_date` on every run: the tests for None (as `match`), the day added to
+  a date start (`start + timedelta(days=1)`), `start + duration`, `raise IncompleteComponent`.  The call
+  `self._get_start_end_duration()` (the validity checks) is external: the three values it returned are parameters,
+  as they are the arguments of the model's `endOf`.  `is_date` is `isinstance(dt, date) and not isinstance(dt, datetime)`
+  on the model's value type; a body written `type(dt) is date` is outside the translated subset (refused). -/
+
+theorem body_is_date (v : SE.Val) : Gen.BodiesSE.is_date v = v.isDate := Bodies.se_is_date_eq v
+
+theorem body_event_end (st en : Option SE.Val) (du : Option Int) :
+    Gen.BodiesSE.Event_end st en du = Bodies.liftSE (SE.endOf st en du) := Bodies.Event_end_eq st en du
+
+theorem body_todo_end (st en : Option SE.Val) (du : Option Int) :
+    Gen.BodiesSE.Todo_end st en du = Bodies.liftSE (SE.endOf st en du) := Bodies.Todo_end_eq st en du
 
 end ICal.C16
